@@ -82,7 +82,7 @@ class SList(Sym):
     a z3 sequence ``seq``.
     ``uid``: name used for measures.
     """
-    __slots__ = ('length', 'elem', 'uid', 'cache', 'seq', 'immutable')
+    __slots__ = ('length', 'elem', 'uid', 'cache', 'seq', 'immutable', 'key', 'volatile')
 
     def __init__(self, length, elem, uid, seq=None):
         self.length = length
@@ -91,6 +91,8 @@ class SList(Sym):
         self.cache = {}
         self.seq = seq
         self.immutable = True
+        self.key = None          # (function-name base, index tuple) for lists that are elements/attributes of indexed values
+        self.volatile = False    # True: the element function may case-split, elements are not memoised here
 
     def __repr__(self):
         return 'SList(%s, len=%s)' % (self.uid, self.length)
